@@ -1,6 +1,7 @@
 import VgiVerif.Prelude.JsonUtil
 import VgiVerif.Prelude.PyValJson
 import VgiVerif.Model.C03
+import VgiVerif.Spec.C03
 /-
 C03 driver.  Annotation JSON:
   {"k":"str"|"bytes"|"int"|"float"|"bool"} · {"k":"intw","w":"int32"} · {"k":"f32"} · {"k":"enum","members":[[name,value|null]…]}
